@@ -66,6 +66,7 @@ func c17Build(cfg c17Cfg, parents []string) *cworld {
 		w.Sim.Seed(p)
 	}
 	w.Sim.Seed(kit.Labels(kit.Obj(kit.Other, "n1", "rel"), "rel", "1"))
+	w.Sim.Seed(kit.Obj(kit.CWidget, "", "shared"))
 	h := world.JSON(func(req map[string]interface{}) interface{} {
 		pn := kit.Str(req, "parent", "metadata", "name")
 		n, _ := kit.Get(req, "parent", "spec", "replicas").(int64)
@@ -85,7 +86,9 @@ func c17Build(cfg c17Cfg, parents []string) *cworld {
 	w.Hooks.Handle("/cc/sync", h)
 	w.Hooks.Handle("/cc/finalize", h)
 	w.Hooks.Handle("/cc/customize", world.JSON(func(req map[string]interface{}) interface{} {
-		return kit.M{"relatedResources": kit.L{kit.M{"apiVersion": "v1", "resource": "others", "labelSelector": kit.M{"matchLabels": kit.M{"rel": "1"}}}}}
+		// ... and a CLUSTER-SCOPED related object, selected by name (the parent is namespaced)
+		return kit.M{"relatedResources": kit.L{kit.M{"apiVersion": "v1", "resource": "others", "labelSelector": kit.M{"matchLabels": kit.M{"rel": "1"}}},
+			kit.M{"apiVersion": "apps.ex/v1", "resource": "cwidgets", "names": kit.L{"shared"}}}}
 	}))
 	w.DeliverAll()
 	return w
